@@ -232,6 +232,10 @@ func vfC09Check(c vfC09Case) error {
 	if !errors.Is(err, io.ErrUnexpectedEOF) {
 		return verifkit.Violf("truncation-misreported", "stream cut %d bytes into frame %d (prefix+payload %d bytes): want unexpected EOF, got: %v", len(rest), complete+1, ends[complete]-lastEnd, err)
 	}
+	if errors.Is(err, io.EOF) {
+		// every consumer in the repository tells a clean end by errors.Is(err, io.EOF)
+		return verifkit.Violf("truncation-as-clean-end", "stream cut %d bytes into frame %d: the error %q also matches io.EOF, i.e. a clean end", len(rest), complete+1, err)
+	}
 	return nil
 }
 
@@ -690,8 +694,8 @@ func FuzzVerifC09Stream(f *testing.F) {
 				}
 				return
 			case len(rest) < 4:
-				if !errors.Is(err, io.ErrUnexpectedEOF) {
-					t.Fatalf("frame %d: input ends %d bytes into a length prefix, got %v", frame, len(rest), err)
+				if !errors.Is(err, io.ErrUnexpectedEOF) || errors.Is(err, io.EOF) {
+					t.Fatalf("frame %d: input ends %d bytes into a length prefix, got %v (must be an unexpected end and not match io.EOF)", frame, len(rest), err)
 				}
 				return
 			}
@@ -706,8 +710,8 @@ func FuzzVerifC09Stream(f *testing.F) {
 				return
 			}
 			if len(rest) < 4+size {
-				if !errors.Is(err, io.ErrUnexpectedEOF) {
-					t.Fatalf("frame %d: input ends %d bytes into a %d-byte payload, got %v", frame, len(rest)-4, size, err)
+				if !errors.Is(err, io.ErrUnexpectedEOF) || errors.Is(err, io.EOF) {
+					t.Fatalf("frame %d: input ends %d bytes into a %d-byte payload, got %v (must be an unexpected end and not match io.EOF)", frame, len(rest)-4, size, err)
 				}
 				return
 			}
